@@ -626,6 +626,17 @@ func HcUpperBounds(v ssa.Value, assume ...Atom) map[string]bool {
 		}
 		out := map[string]bool{t: true}
 		known[t] = out
+		// min(a, b, ...) is bounded by every bound of every argument
+		if call, isCall := v.(*ssa.Call); isCall && d <= 6 {
+			if bi, isB := call.Call.Value.(*ssa.Builtin); isB && bi.Name() == "min" {
+				for _, a := range call.Call.Args {
+					for k := range ub(a, d+1) {
+						out[k] = true
+					}
+				}
+				return out
+			}
+		}
 		ph, ok := v.(*ssa.Phi)
 		if !ok || d > 6 {
 			return out
